@@ -382,6 +382,26 @@ func schedListVsSync(res *core.Result, r *core.RNG) error {
 			stuck = true
 		}
 	}
+	// an announced server is banned and then announced once more (a record relayed late) while the
+	// devices keep syncing: every path through the handler releases the list lock
+	if !stuck {
+		k := srv.DetKey(r).Pub
+		for _, banned := range []bool{false, true, false, true} {
+			as := server.AuthorizedServer{PublicKey: k, Banned: banned, Location: "127.0.0.1", HttpPort: 9, TcpPort: 7, UdpPort: 8}
+			as.GCAAuthorization = glow.Sign(as.SigningBytes(), s.a.GCA.Priv)
+			j, _ := json.Marshal(as)
+			done := make(chan int, 1)
+			go func() { done <- w.Raw("POST", "/api/v1/authorized-servers", j).Status }()
+			select {
+			case <-done:
+			case <-time.After(3 * time.Second):
+				stuck = true
+			}
+			if stuck {
+				break
+			}
+		}
+	}
 	// several announcements of ONE new key in flight together (different ports, all validly signed):
 	// the key gets exactly one entry
 	for round := 0; round < 6 && !stuck; round++ {
